@@ -125,6 +125,7 @@ func runC08(c *core.Ctx) *core.Outcome {
 	cfg.SetSession = t.Chance(1, 2)
 	cfg.FinishAlways = t.Chance(1, 3)
 	cfg.First = t.Chance(1, 4)
+	cfg.ResetOnEmpty = t.Chance(1, 6)
 	mode := t.Weighted(2, 3, 2) // long-lived, persisted, mixed
 	w := world.New(a, cfg)
 	w.UseBackend()
@@ -153,6 +154,10 @@ func runC08(c *core.Ctx) *core.Outcome {
 				cur = p[len(p)-1]
 			}
 			in = genInput(t, a, cur, 6)
+			if cfg.ResetOnEmpty && t.Chance(1, 4) {
+				in = []byte{}
+				o.Probes["empty_input_with_reset_on_empty"]++
+			}
 		}
 		fresh := mode == 1 || (mode == 2 && t.Chance(1, 2))
 		t.End()
